@@ -53,10 +53,10 @@ def canon(v):
     return v
 
 
-def split_extras(args):
+def split_extras(args, layout=None):
     ex = {}
     args = list(args)
-    for name in EXTRAS:
+    for name in (EXTRAS if layout is None else layout):
         ex[name] = args.pop(0)
     return ex, tuple(args)
 
@@ -131,8 +131,8 @@ def _touch_state(ex):
         st['calls'] = st.get('calls', 0) + 1
 
 
-def task(*args, **kwargs):
-    ex, targs = split_extras(args)
+def task(*args, _layout=None, **kwargs):
+    ex, targs = split_extras(args, _layout)
     key = targs[0] if targs and isinstance(targs[0], int) else (kwargs.get('i') if kwargs else None)
     _log('task', args=canon(targs), kwargs=canon(kwargs), **_describe_extras(ex))
     _touch_state(ex)
@@ -140,7 +140,15 @@ def task(*args, **kwargs):
     d = float(os.environ.get('VERIF_TASK_SLEEP', '0') or 0)
     if d:
         time.sleep(d)
+    if 'shared' in ex:
+        return ['R', canon(targs), canon(kwargs), ['S', canon(ex['shared'])]]
     return ['R', canon(targs), canon(kwargs)]
+
+
+def task2(*args, _layout=None, **kwargs):
+    r = task(*args, _layout=_layout, **kwargs)
+    r[0] = 'Q'
+    return r
 
 
 def task_big(*args, **kwargs):
@@ -156,15 +164,15 @@ def task_np(*args):
     return chunk * 2
 
 
-def init(*args):
-    ex, targs = split_extras(args)
+def init(*args, _layout=None):
+    ex, targs = split_extras(args, _layout)
     _log('init', args=canon(targs), **_describe_extras(ex))
     _touch_state(ex)
     _misbehave('init', None)
 
 
-def exit_(*args):
-    ex, targs = split_extras(args)
+def exit_(*args, _layout=None):
+    ex, targs = split_extras(args, _layout)
     _log('exit', args=canon(targs), **_describe_extras(ex))
     _misbehave('exit', None)
     val = ['E', hook.current_instance() if hook is not None else None, ex['state'].get('calls') if 'state' in ex else None]
@@ -173,3 +181,20 @@ def exit_(*args):
         val.append('y' * pay)
     _log('exit_value', value=val[:3])
     return val
+
+
+# one module-level (hence picklable) variant per extras layout, for histories in which the pool
+# settings change between calls: task_101 = worker id and worker state are prepended, etc.
+def _variant(base, bits):
+    layout = [n for n, b in zip(('wid', 'shared', 'state'), bits) if b == '1']
+
+    def f(*a, **k):
+        return base(*a, _layout=layout, **k)
+    f.__name__ = f.__qualname__ = f"{base.__name__.rstrip('_')}_{bits}"
+    return f
+
+
+for _b in ('000', '001', '010', '011', '100', '101', '110', '111'):
+    for _base in (task, task2, init, exit_):
+        _f = _variant(_base, _b)
+        globals()[_f.__name__] = _f
